@@ -787,7 +787,7 @@ func (w *world) recordObl(id string, f func(o *oblStat)) {
 	w.ex.mu.Unlock()
 }
 
-func (w *world) reportViolation(kind, id, msg string, extra *Term) {
+func (w *world) reportViolation(kind, id, msg string, extra *Term) (reported bool) {
 	// obtain a model of pc ∧ extra
 	w.flushPC()
 	var m map[string]*Term
@@ -805,13 +805,18 @@ func (w *world) reportViolation(kind, id, msg string, extra *Term) {
 		m = w.sv.model(w.tc, w.inputVars())
 		w.solverGuard()
 		w.sv.endModel(extra != nil)
+	} else if r == rUnsat {
+		// the solver refutes what a cheaper decision procedure (or an earlier
+		// "unknown", which keeps both branches) let through: this path, or the
+		// violating part of it, does not exist
+		return false
 	} else {
 		// no model: without concrete inputs there is nothing to replay and
 		// nothing to report as a violation
 		w.ex.mu.Lock()
 		w.ex.inconcl = append(w.ex.inconcl, kind+" "+id+": no model for the violating path ("+r.String()+")")
 		w.ex.mu.Unlock()
-		return
+		return false
 	}
 	v := violation{
 		Harness: w.ex.entry.Name(), ID: id, Kind: kind, Msg: msg,
@@ -825,6 +830,7 @@ func (w *world) reportViolation(kind, id, msg string, extra *Term) {
 		w.ex.cond.Broadcast()
 	}
 	w.ex.mu.Unlock()
+	return true
 }
 
 func (w *world) assert(condv value, id string) {
@@ -888,9 +894,16 @@ func (w *world) assert(condv value, id string) {
 		w.addPC(excl)
 		w.addPC(cond)
 	case rSat:
-		w.recordObl(id, func(o *oblStat) { o.Checked++; o.Violated++ })
-		w.reportViolation("assert", id, "assertion "+id+" can be false", q)
-		panic(engineAbort{kind: abViolation})
+		if w.reportViolation("assert", id, "assertion "+id+" can be false", q) {
+			w.recordObl(id, func(o *oblStat) { o.Checked++; o.Violated++ })
+			panic(engineAbort{kind: abViolation})
+		}
+		// refuted (or no model, recorded as inconclusive): go on as if discharged
+		w.recordObl(id, func(o *oblStat) { o.Checked++; o.Discharged++ })
+		w.decisions = append(w.decisions, 0)
+		w.pos++
+		w.addPC(excl)
+		w.addPC(cond)
 	default:
 		w.recordObl(id, func(o *oblStat) { o.Checked++; o.Unknown++ })
 		w.ex.mu.Lock()
@@ -1126,14 +1139,17 @@ func (w *world) runPathOnce(prefix []int) (redo []int) {
 			}
 			ex.mu.Unlock()
 		case targetPanic:
-			w.recordObl("no-panic", func(o *oblStat) { o.Checked++; o.Violated++ })
-			w.reportViolation("panic", "no-panic", "panic: "+toString(p.v), nil)
+			if w.reportViolation("panic", "no-panic", "panic: "+toString(p.v), nil) {
+				w.recordObl("no-panic", func(o *oblStat) { o.Checked++; o.Violated++ })
+			}
 		case rtPanic:
-			w.recordObl("no-panic", func(o *oblStat) { o.Checked++; o.Violated++ })
-			w.reportViolation("panic", "no-panic", "panic: "+string(p), nil)
+			if w.reportViolation("panic", "no-panic", "panic: "+string(p), nil) {
+				w.recordObl("no-panic", func(o *oblStat) { o.Checked++; o.Violated++ })
+			}
 		case runtime.Error:
-			w.recordObl("no-panic", func(o *oblStat) { o.Checked++; o.Violated++ })
-			w.reportViolation("panic", "no-panic", "panic: "+p.Error(), nil)
+			if w.reportViolation("panic", "no-panic", "panic: "+p.Error(), nil) {
+				w.recordObl("no-panic", func(o *oblStat) { o.Checked++; o.Violated++ })
+			}
 		default:
 			ex.mu.Lock()
 			ex.unsupp[fmt.Sprintf("engine panic: %v", p)]++
